@@ -235,8 +235,8 @@ def decode_rejections(facts, R):
         R.check(variant in ("InvalidHeaderLength", "InvalidSpec", "LengthMismatch"), "decode-is-lossless", b.path, "rejection:" + str(variant),
                 "decode rejects with %s under %s: not one of the three specified rejections (reserved bits and unknown format codes must be preserved, not rejected)"
                 % (variant, fs), st.get("span"), "under " + "; ".join(x[:70] for x in fs[-2:]))
-    R.check(sorted(kinds) == ["InvalidHeaderLength", "InvalidSpec", "LengthMismatch"], "decode-is-lossless", b.path, "exactly three rejections",
-            "decode's rejection set is %s" % sorted(kinds), b.span, "short input, wrong magic, inconsistent length")
+    R.check(sorted(set(kinds)) == ["InvalidHeaderLength", "InvalidSpec", "LengthMismatch"], "decode-is-lossless", b.path, "exactly three rejections",
+            "decode's rejection set is %s" % sorted(set(kinds)), b.span, "short input, wrong magic, inconsistent length")
     # no `?`-propagated rejections either
     brs = [t for i, t in b.calls() if t["callee"]["name"] == "from_residual"]
     R.check(not brs, "decode-is-lossless", b.path, "no other early exits", "decode has %d `?` exits" % len(brs), b.span)
@@ -265,6 +265,18 @@ def emission(facts, R):
             ems = [(i, t) for i, t in b.calls() if t["callee"]["name"] in ("write_all", "write", "write_fmt", "write_vectored", "call_once", "call", "call_mut")
                    and not t["callee"]["path"].startswith("<")]
             ems = [(i, t) for i, t in ems if t["callee"]["name"].startswith("write") or "body_writer" in render(s.op(t["args"][0]))]
+        # a route may delegate the whole emission to another (checked) route with the same message
+        route_fns = {p_[:-len("::{closure#0}")] if p_.endswith("::{closure#0}") else p_ for p_, _ in ROUTES}
+        dele = [(i, t) for i, t in b.calls() if t["callee"]["path"] in route_fns and t["callee"]["path"] != path]
+        if not ems and len(dele) == 1:
+            di, dt = dele[0]
+            margs = [render_n(s.op(a)) for a in dt["args"]]
+            w = must_cross(b, [(0, 0)], _ok_exits(b), [term_pt(b, di)], after_start=False)
+            same_msg = any(m in ("arg1", "arg2", "arg1.msg") for m in margs)
+            R.check(w is None and same_msg, "emission-normal-form", path, "delegates the emission to " + dt["callee"]["path"],
+                    "delegation to %s with args %s is not on every successful path / not of this message" % (dt["callee"]["path"], margs), dt.get("span"),
+                    "every Ok path crosses %s(%s)" % (dt["callee"]["path"], ", ".join(margs)))
+            continue
         seq = []
         for i, t in ems:
             src = s.op(t["args"][1]) if len(t["args"]) > 1 else None
@@ -371,10 +383,17 @@ def into_wire_bytes(facts, R):
     if cap_sw is None:
         return
     sw, d = cap_sw
-    total_form = d[3] if d[1] in ("Ge", "Gt") else d[2]
+
+    def _is_total(f):
+        return f is not None and f.c == 48 and len(f.t) == 2 and all(a[0] == "len" for a in f.t) and all(v == 1 for v in f.t.values())
+    # either spelling: capacity >= total / capacity < total / total <= capacity / total > capacity
+    if _is_total(d[3]) and not _is_total(d[2]):
+        total_form, ok_op = d[3], d[1] in ("Ge", "Lt")
+    else:
+        total_form, ok_op = d[2], d[1] in ("Le", "Gt")
     # total = 48 + len(query) + len(body)
-    ok_total = total_form.c == 48 and len(total_form.t) == 2 and all(a[0] == "len" for a in total_form.t) and all(v == 1 for v in total_form.t.values())
-    R.check(ok_total and d[1] in ("Ge", "Lt"), "emission-normal-form", path, "in-place iff capacity >= 48+q+b",
+    ok_total = _is_total(total_form)
+    R.check(ok_total and ok_op, "emission-normal-form", path, "in-place iff capacity >= 48+q+b",
             "branch condition is %s %s %s" % (d[2], d[1], d[3]), b.span, "capacity >= %s" % total_form)
     # fresh branch: extend(header) extend(query) append(body)
     fresh = [(i, t) for i, t in b.calls() if t["callee"]["name"] in ("extend_from_slice", "append")]
@@ -431,45 +450,52 @@ def atom_name_of(a):
 
 
 def length_formula(facts, R):
+    """Whenever a function stores length, query_length or body_length of a header, the store that is the last of these
+    on some path to a point where the header is consumed (Header::encode of it, the function's return) leaves
+    length == 48 + query_length + body_length, each field standing for the value last stored on that path
+    (flow-sensitive affine forms) or, if this function did not store it, for the field itself."""
     n = 0
-    for w in field_writes(facts, "header::Header", "length", include_borrows=False):
-        b = w["body"]
-        if b.path in ("header::Header::decode",):
-            continue
-        if w["kind"] != "store":
-            continue
-        aff = Affine(b, facts)
-        st = aff.state_at((w["bb"], w["idx"]))
-        s = aff.sym
-        v = s.rvalue(w["rv"])
-        # base header of this store
-        base = render(s.place({"l": w["body"].blocks[w["bb"]]["stmts"][w["idx"]]["place"]["l"],
-                               "p": w["body"].blocks[w["bb"]]["stmts"][w["idx"]]["place"]["p"][:-1]}))
-        terms = _sum_terms(v)
-        names = sorted(render(x) for x in terms)
-        ql = [x for x in terms if x[0] == "field" and x[2] == "query_length"]
-        bl = [x for x in terms if x[0] == "field" and x[2] == "body_length"]
-        c48 = [x for x in terms if const_val(x) == 48]
-        ok = len(terms) == 3 and len(c48) == 1 and len(ql) == 1 and render(ql[0][1]) == base and ((len(bl) == 1 and render(bl[0][1]) == base) or
-                                                                                                    any(render(x) in ("body_len",) for x in terms))
-        n += 1
-        R.check(ok, "length-formula", b.path, "length = 48 + query_length + body_length (same header)",
-                "%s.length := %s" % (base, " + ".join(names)), w["span"], "%s.length = %s" % (base, " + ".join(names)))
-    # ordering: a function that also stores query_length / body_length must do so before computing length
-    lens = [w for w in field_writes(facts, "header::Header", "length", include_borrows=False) if w["kind"] == "store" and w["body"].path != "header::Header::decode"]
-    for fld in ("query_length", "body_length"):
-        for q in field_writes(facts, "header::Header", fld, include_borrows=False):
-            if q["kind"] != "store":
+    groups = {}
+    for fld_name in ("length", "query_length", "body_length"):
+        for w in field_writes(facts, "header::Header", fld_name, include_borrows=False):
+            b = w["body"]
+            if b.path in ("header::Header::decode",) or w["kind"] != "store":
                 continue
-            for l in lens:
-                if l["body"] is not q["body"]:
-                    continue
-                b = l["body"]
-                before = (b.dominates(q["bb"], l["bb"]) and (q["bb"] != l["bb"] or q["idx"] < l["idx"]))
-                after = l["bb"] in b.reachable((q["bb"],)) if q["bb"] != l["bb"] else q["idx"] < l["idx"]
-                stale = (q["bb"] in b.reachable(b.succs(l["bb"]))) or (q["bb"] == l["bb"] and q["idx"] > l["idx"])
-                R.check(before and not stale, "length-formula", b.path, "%s stored before length is computed" % fld,
-                        "header.length is computed from a stale %s (the store to %s comes after it)" % (fld, fld), l["span"], "ordered")
+            if fld_name == "length":
+                n += 1
+            groups.setdefault(b.path, []).append((fld_name, w))
+    for bpath, ws in sorted(groups.items()):
+        b = ws[0][1]["body"]
+        aff = Affine(b, facts)
+        s = aff.sym
+        by_root = {}
+        for fld_name, w in ws:
+            stmt = b.blocks[w["bb"]]["stmts"][w["idx"]]
+            base_pl = {"l": stmt["place"]["l"], "p": stmt["place"]["p"][:-1]}
+            by_root.setdefault((aff.root_local(base_pl), tuple(str(e.get("f")) for e in base_pl["p"] if isinstance(e, dict))), []).append((fld_name, w, base_pl))
+        for (root, _), items in by_root.items():
+            base_pl = items[0][2]
+            base = render(s.place(base_pl))
+            exits = list(return_points(b))
+            for i, t in b.calls():
+                if callee_matches(t["callee"], "header::Header::encode") and t["args"]:
+                    ap = op_place(t["args"][0])
+                    if ap is not None and aff.root_local(ap) == root:
+                        exits.append(term_pt(b, i))
+            pts = [(w["bb"], w["idx"]) for _, w, _ in items]
+            for fld_name, w, _ in items:
+                me = (w["bb"], w["idx"])
+                path = must_cross(b, [me], exits, [p_ for p_ in pts if p_ != me])
+                if path is None:
+                    continue    # another store of the group follows on every path: that one is judged
+                st = aff.state_at((w["bb"], w["idx"] + 1))
+
+                def fld(name):
+                    return aff.field_form(st, base_pl, name) or Form.atom(("sym", base + "." + name))
+                lf, want = fld("length"), Form.const(48).add(fld("query_length")).add(fld("body_length"))
+                det = "%s.length = %s; 48 + query_length + body_length = %s" % (base, lf, want)
+                R.check(lf == want, "length-formula", b.path, "length = 48 + query_length + body_length (same header) after the last store (%s)" % fld_name,
+                        "the header leaves %s with %s" % (b.path, det), w["span"], det)
     R.floor("length-formula", n, 5, "stores to Header.length")
     # query_length / body_length stores
     for fld, what in (("query_length", "query"), ("body_length", "body")):
